@@ -1,4 +1,5 @@
 import MaddyVerif.Model.Errors
+import MaddyVerif.Model.ErrorsNextHop
 import Driver.Util
 namespace Driver.C16
 open MaddyVerif.Errors Driver
@@ -48,6 +49,134 @@ def showStored (r : Reply) : String :=
     | .text cps => "text:" ++ hexRunes cps
   s!"{r.code} {e} {m}"
 
+/-! ### next-hop failures (wrapClientErr, newConn, multipleErrs) -/
+
+def b01 (b : Bool) : String := if b then "1" else "0"
+
+/-- prefix rendering of an error value, the format of the harness (`verr.Node.String`) -/
+def showErr : Err → String
+  | .plain => "P"
+  | .deadline => "D"
+  | .net t => "N " ++ b01 t
+  | .smtp c e m => s!"S {c} {e.cls} {e.subj} {e.det} {hexRunes m}"
+  | .rawSmtp c e m => s!"R {c} {e.cls} {e.subj} {e.det} {hexRunes m}"
+  | .smtpWrap c e m i => s!"W {c} {e.cls} {e.subj} {e.det} {hexRunes m} " ++ showErr i
+  | .withTemp t i => "T " ++ b01 t ++ " " ++ showErr i
+  | .withFields c e m i =>
+    let cs := match c with | some c => toString c | none => "-"
+    let es := match e with | some e => s!"{e.cls}.{e.subj}.{e.det}" | none => "-"
+    let ms := match m with | some m => hexRunes m | none => "_"
+    s!"F {cs} {es} {ms} " ++ showErr i
+
+/-- the menu of network errors the harness builds: key ↦ (Err is a DNSError, Temporary(), Unwrap()) -/
+def opDesc : String → Option (Bool × Bool × Err)
+  | "refused" => some (false, false, transparent (.net false))  -- SyscallError{ECONNREFUSED}
+  | "reset"   => some (false, false, transparent (.net false))  -- SyscallError{ECONNRESET}
+  | "timeout" => some (false, true, .net true)                  -- os.ErrDeadlineExceeded
+  | "eof"     => some (false, false, .plain)                    -- io.ErrUnexpectedEOF
+  | "ctx"     => some (false, true, .deadline)                  -- context.DeadlineExceeded
+  | "dns0"    => some (true, false, .net false)                 -- DNSError{IsNotFound}
+  | "dns1"    => some (true, true, .net true)                   -- DNSError{IsTemporary}
+  | _ => none
+
+def opErr (d : Bool × Bool × Err) : Err := .withTemp d.2.1 d.2.2
+
+/-- `L <ce0>` TLSError, `O <key>` net.OpError, `V <tree>` any other value -/
+def parseClientErr : List String → Option (ClientErr × List String)
+  | "O" :: k :: r => do let d ← opDesc k; pure (.op d.1 d.2.1 d.2.2, r)
+  | "V" :: r => do let (e, r') ← parseErr r; pure (.val e, r')
+  | "L" :: "O" :: k :: r => do let d ← opDesc k; pure (.tls (opErr d), r)
+  | "L" :: "V" :: r => do let (e, r') ← parseErr r; pure (.tls e, r')
+  | _ => none
+
+def showGood (e : Err) : String :=
+  showErr e ++ " => " ++ showReply (wrapErr false e) ++ " | " ++ showReply (wrapErr true e) ++ " | " ++
+    showStored (toSMTPErr e) ++ " retry=" ++ b01 (queueRetries e)
+
+def mxHost (i : Nat) : List Nat := (s!"mx{i}.c16.invalid.").toList.map Char.toNat
+
+/-- per-MX scripts: `U` usable, `P <tree>` refused by a policy with that error, `G|E <reply>` greeting
+/ EHLO answered with that reply, `O <key>` dialling fails; separated by `;`, ended by `then`. -/
+partial def parseMXs (i : Nat) : List String → Option (List (Option Err) × List String)
+  | "then" :: r => some ([], r)
+  | ";" :: r => parseMXs i r
+  | "U" :: r => do let (l, r') ← parseMXs (i + 1) r; pure (none :: l, r')
+  | "P" :: r => do
+      let (e, r1) ← parseErr r
+      let (l, r') ← parseMXs (i + 1) r1
+      pure (some e :: l, r')
+  | "O" :: k :: r => do
+      let d ← opDesc k
+      let (l, r') ← parseMXs (i + 1) r
+      pure (some (wrapClientErr true (mxHost i) (.op d.1 d.2.1 d.2.2)) :: l, r')
+  | k :: c :: a :: s :: d :: m :: r => do
+      if k != "G" && k != "E" then none
+      let x : ClientErr := .val (.rawSmtp (← c.toNat?) ⟨← a.toNat?, ← s.toNat?, ← d.toNat?⟩ (← unhexRunes? m))
+      let (l, r') ← parseMXs (i + 1) r
+      pure (some (wrapClientErr true (mxHost i) x) :: l, r')
+  | _ => none
+
+def firstUp (l : List (Option Err)) : Nat := (l.takeWhile Option.isSome).length
+
+def parseReply? : List String → Option (Nat × Ench × List Nat)
+  | [c, a, s, d, m] => do pure (← c.toNat?, ⟨← a.toNat?, ← s.toNat?, ← d.toNat?⟩, ← unhexRunes? m)
+  | _ => none
+
+/-- remote: MAIL / DATA / end-of-data failures are passed on as they are, RCPT through moduleError -/
+def parseAfter (host : List Nat) : List String → Option After
+  | ["ok"] => some .ok
+  | k :: rest => do
+      let (c, en, m) ← parseReply? rest
+      let e := wrapClientErr true host (.val (.rawSmtp c en m))
+      if k == "M" || k == "D" || k == "B" then pure (.asIs e) else if k == "R" then pure (.wrapped e) else none
+  | _ => none
+
+/-- downstream endpoints: `U` usable, `X` no such socket (dial error), `C` closed before the greeting
+(EOF), `G|E <reply>` -/
+partial def parseEPs : List String → Option (List (Option Err) × List String)
+  | "then" :: r => some ([], r)
+  | ";" :: r => parseEPs r
+  | "U" :: r => do let (l, r') ← parseEPs r; pure (none :: l, r')
+  | "X" :: r => do
+      let (l, r') ← parseEPs r
+      pure (some (wrapClientErr false [] (.op false false (transparent (.net false)))) :: l, r')
+  | "C" :: r => do let (l, r') ← parseEPs r; pure (some (wrapClientErr false [] (.val .plain)) :: l, r')
+  | k :: c :: a :: s :: d :: m :: r => do
+      if k != "G" && k != "E" then none
+      let x : ClientErr := .val (.rawSmtp (← c.toNat?) ⟨← a.toNat?, ← s.toNat?, ← d.toNat?⟩ (← unhexRunes? m))
+      let (l, r') ← parseEPs r
+      pure (some (wrapClientErr false [] x) :: l, r')
+  | _ => none
+
+/-- downstream: MAIL failures as they are, RCPT / DATA / end-of-data through moduleError -/
+def parseDownAfter : List String → Option After
+  | ["ok"] => some .ok
+  | k :: rest => do
+      let (c, en, m) ← parseReply? rest
+      let e := wrapClientErr false [] (.val (.rawSmtp c en m))
+      if k == "M" then pure (.asIs e) else if k == "R" || k == "D" || k == "B" then pure (.wrapped e) else none
+  | _ => none
+
+/-- LMTP statuses after the data: `ok` or a reply, separated by `;` -/
+partial def parseStatuses : List String → Option (List After)
+  | [] => some []
+  | ";" :: r => parseStatuses r
+  | "ok" :: r => do let l ← parseStatuses r; pure (.ok :: l)
+  | c :: a :: s :: d :: m :: r => do
+      let (c, en, m) ← parseReply? [c, a, s, d, m]
+      let l ← parseStatuses r
+      pure (.asIs (lmtpStatus c en m) :: l)
+  | _ => none
+
+def showOpt : Option Err → String
+  | some e => showGood e
+  | none => "ok"
+
+partial def parseErrs : List String → Option (List Err)
+  | [] => some []
+  | ";" :: r => parseErrs r
+  | r => do let (e, r') ← parseErr r; let l ← parseErrs r'; pure (e :: l)
+
 def handle : List String → String
   | "wrap" :: mang :: rest =>
     match parseErr rest with
@@ -74,6 +203,44 @@ def handle : List String → String
       match parseReject (variant == "c") ⟨n, c, e, msgEmpty == "1"⟩ with
       | none => "err"
       | some (c, e) => s!"{c} {e.cls}.{e.subj}.{e.det}"
+  | "wce" :: addr :: server :: rest =>
+    match parseClientErr rest, unhexRunes? server with
+    | some (x, []), some srv => showGood (wrapClientErr (addr == "1") srv x)
+    | _, _ => "bad-op"
+  | "nomx" :: rest =>
+    match parseMXs 0 rest with
+    | some (mxs, aft) =>
+      match parseAfter (mxHost (firstUp mxs)) aft with
+      | some after =>
+        match txErr (fun _ => []) mxs after with
+        | some e => showGood e
+        | none => "ok"
+      | none => "bad-op"
+    | none => "bad-op"
+  | "down" :: _lmtp :: rest =>
+    match parseEPs rest with
+    | some (eps, "S" :: sts) =>
+      match parseStatuses sts with
+      | some afters =>
+        match downLoop none eps with
+        | none => " || ".intercalate (afters.map fun a => showOpt (downTxErr eps a))
+        | _ => showOpt (downTxErr eps .ok)
+      | none => "bad-op"
+    | some (eps, aft) =>
+      match parseDownAfter aft with
+      | some after => showOpt (downTxErr eps after)
+      | none => "bad-op"
+    | none => "bad-op"
+  | "mxlookup" :: rest =>
+    match parseErr rest with
+    | some (e, []) => showGood (lookupMXErr e)
+    | _ => "bad-op"
+  | "merr" :: rest =>
+    match parseErrs rest with
+    | some errs =>
+      let e := multipleErrs errs
+      showReply (wrapErr false e) ++ " | " ++ showReply (wrapErr true e)
+    | none => "bad-op"
   | ["milter", code] =>
     match code.toNat? with
     | some c => let r := milterReply c; s!"{r.1} {r.2.cls}.{r.2.subj}.{r.2.det}"
